@@ -57,7 +57,7 @@ TIERS = {
     "thorough": {
         "ops": [o[0] for o in lb.OPS], "depth3_ops": ["add"],
         "tlc_bin": "BinopSlot_deep", "tlc_cmp": "BinopSlotCmp_thorough", "strict": True,
-        "cmp": [(all64(), [], SMALL), (MEDIUM, MEDIUM, TINY)], "complete_ops": [o[0] for o in lb.OPS],
+        "cmp": [(all64(), [], TINY), (SMALL, SMALL, TINY)], "complete_ops": [o[0] for o in lb.OPS],
         "cmp_modules": 12,
     },
 }
@@ -462,7 +462,17 @@ def replay(path, seed):
         got = r["bad"][0] if r["bad"] else {"res": case["res"], "log": case["log"]}
         print("%s %s %s  defs=%s behaviour=%s\n   want %s %s\n   got  %s %s" % (det["left"], det["operator"], det["right"], json.dumps(det["defs"]),
               json.dumps(det["behaviour"]), case["res"], case["log"], got["res"], got["log"]))
-        still += bool(r["bad"])
+        if r["bad"]:
+            # same descriptor as in run(); a deviation covered by a known finding is reported as such
+            d2 = {k: v for k, v in desc.items() if k != "obs_class"}
+            d2["model_predicts"] = (got["res"], got["log"]) == (case["ires"], case["ilog"])
+            cc = dict(case, rel=desc["relation"])
+            d2["obs_class"] = obs_class_arith(cc, got) if desc["part"] == "arith" else obs_class_cmp(cc, got)
+            kf = [k for k in core.load_known_findings(PROP) if core._match(k["match"], d2)]
+            if kf:
+                print("KNOWN-FINDING: property=%s %s [%s]" % (PROP, kf[0]["what"], kf[0]["id"]))
+            else:
+                still += 1
     if still:
         print("VIOLATION property=%s replay=%s" % (PROP, path))
     return 1 if still else 0
